@@ -23,8 +23,8 @@ def c04 (op : String) (j : Json) : Except String Json := do
   | "c04.weights" =>
     let n ← getOpt (fieldD j "N" Json.null) getRat
     let draws ← getList (fieldD j "draws" (Json.arr #[])) getNatList
-    pure ((jResult (jList jWeight) (generateWeights rows n atol draws)).setObjVal! "calls"
-      (jList (jList jRat) (samplerCalls rows n atol draws)))
+    pure (((jResult (jList jWeight) (generateWeights rows n atol draws)).setObjVal! "calls"
+      (jList (jList jRat) (samplerCalls rows n atol draws))).setObjVal! "sampler_ok" (Json.bool (samplerOK rows n atol draws)))
   | _ => throw s!"unknown op {op}"
 
 end CKT.Driver
